@@ -55,6 +55,61 @@ theorem C07_length_filter (raw : Bytes) (s : Sentence) (h : produce K raw = .ok 
   rw [consts_ok.2.1]
   exact produce_ok_length K raw s h
 
+/-- the start-delimiter half of the filter -/
+def startOk (l : Bytes) : Bool :=
+  match l with
+  | b :: _ => Generated.SHOULD_PARSE_FIRST.contains b
+  | [] => false
+
+theorem sfilter_eq (l : Bytes) : sfilter l = (decide (l.length > Generated.STREAM_MIN_LEN) && startOk l) := by
+  unfold sfilter streamFilter startOk
+  cases l <;> rfl
+
+/-- **A preprocessor that undoes a decoration of the lines changes nothing.** Every line carries a
+decoration (a log prefix, a time stamp suffix …) that makes it longer than the length bound and
+that the preprocessor removes again: the reader delivers exactly what it delivers for the bare
+lines (and leaves the same state behind).  A bare line of at most ten bytes, which the bare reader
+drops unseen, reaches the factory in the decorated feed — and is rejected there. -/
+theorem C07_preprocessor (withTbq : Bool) (lines : List Bytes) (deco pre : Bytes → Bytes)
+    (hinv : ∀ l, pre (deco l) = l) (hlong : ∀ l, Generated.STREAM_MIN_LEN < (deco l).length) :
+    deliveriesOf (runLoop (streamStep AKS) (initState withTbq)
+        (streamLines Generated.STREAM_MIN_LEN Generated.SHOULD_PARSE_FIRST pre (lines.map deco)))
+      = deliveriesOf (runLoop (streamStep AKS) (initState withTbq) (lines.filter sfilter)) ∧
+    tbqOutOf (runLoop (streamStep AKS) (initState withTbq)
+        (streamLines Generated.STREAM_MIN_LEN Generated.SHOULD_PARSE_FIRST pre (lines.map deco)))
+      = tbqOutOf (runLoop (streamStep AKS) (initState withTbq) (lines.filter sfilter)) := by
+  have h1 : streamLines Generated.STREAM_MIN_LEN Generated.SHOULD_PARSE_FIRST pre (lines.map deco)
+      = lines.filter startOk := by
+    unfold streamLines
+    have ha : (lines.map deco).filter (fun l => decide (l.length > Generated.STREAM_MIN_LEN)) = lines.map deco := by
+      apply List.filter_eq_self.mpr
+      intro l hl
+      obtain ⟨x, _, rfl⟩ := List.mem_map.mp hl
+      simpa using hlong x
+    rw [ha, List.map_map]
+    have hb : (pre ∘ deco) = id := funext hinv
+    rw [hb, List.map_id]
+    rfl
+  have h2 : (lines.filter startOk).filter sfilter = lines.filter sfilter := by
+    rw [List.filter_filter]
+    apply List.filter_congr
+    intro l _
+    rw [sfilter_eq]
+    cases startOk l <;> simp
+  rw [h1, ← h2]
+  have := runLoop_filter (streamStep AKS) sfilter (initState withTbq) (lines.filter startOk) (by
+    intro l hl hf s
+    -- the line starts with a delimiter but is too short: the factory rejects it
+    have hst : startOk l = true := (List.mem_filter.mp hl).2
+    cases hp : produce K l with
+    | error e => exact streamStep_error AKS s l e hp
+    | ok sent =>
+      exfalso
+      have hlen := C07_length_filter l sent hp
+      rw [sfilter_eq] at hf
+      simp [hst, hlen] at hf)
+  exact ⟨this.2.1.symm, this.2.2.symm⟩
+
 /-- **File and socket readers**: a line handed on with its terminator (LF or CRLF) and trailing
 blanks is processed exactly like the bare line (the readers' `raw` text is the stripped line). -/
 theorem C07_terminators (st : AsmState) (l trailer : Bytes) (ht : trailer.all isSpace = true) :
@@ -238,6 +293,7 @@ theorem C07_oneshot (n : Nat) (hn1 : 1 ≤ n) (all : Nat → Sentence)
 #print axioms C07_iter_eq_queue
 #print axioms C07_bytestream
 #print axioms C07_length_filter
+#print axioms C07_preprocessor
 #print axioms C07_terminators
 #print axioms C07_socket
 #print axioms C07_oneshot
